@@ -17,6 +17,9 @@ structure CProg where
   globals : List (String × Ty × Expr)
   setup : Stmt
   loop : Stmt
+  /-- W6: the emitted function definitions (prototypes + definitions between the globals and `setup()`); the call statements of
+      `setup` / `loop` carry the definition they call, so `C.run` does not look here — `CProg.lines` does -/
+  helpers : List Helper := []
   deriving DecidableEq, Repr
 
 namespace C
@@ -98,6 +101,13 @@ def eval (te : TyEnv) (s : Store) (e : Expr) (m : Mode := .strict) : Except Err 
   | .toStr a => do let x ← eval te s a m; pure (.str x.text)
 
 open Py (Flow St)
+
+/-- the arguments of a call, each converted to the declared type of its parameter (C++ leaves the ORDER of evaluation open; the
+    expressions of this language have no side effects, so the order only decides which of two failing arguments is reported) -/
+def evalArgs (te : TyEnv) (s : Store) (m : Mode) : List (String × Ty) → List Expr → Except Err (List Val)
+  | [], [] => .ok []
+  | p :: ps, e :: es => do let v ← eval te s e m; let vs ← evalArgs te s m ps es; pure (conv p.2 v :: vs)
+  | _, _ => .error .typeError
 
 /-- assignment converts to the declared type of the variable -/
 def assignTo (te : TyEnv) (s : Store) (x : String) (v : Val) : Except Err Store :=
@@ -187,6 +197,22 @@ def exec (te : TyEnv) (fuel : Nat) (stmt : Stmt) (st : St) (m : Mode := .strict)
       let v ← eval te st.store e m
       if v.toInt < 0 then .error .negativeDelay else pure { st with trace := .delay v.toInt :: st.trace }
     | .brk => pure { st with flow := .broke }
+    | .call x _ ps ls rt body ret args => do
+      -- W6: `x = f(args);` / `f(args);` — a fresh frame with the parameters (each argument converted to the parameter's type); the
+      -- body runs under the declarations of the function (parameters and locals; a local is in the store from its first
+      -- assignment on — its declaration `T x = e;`; the globals of the sketch are NOT visible in this model: `nameError`); the
+      -- value of `return e;` converts to the return type, the assignment to `x` to the type of `x`
+      let vs ← evalArgs te st.store m ps args
+      let st1 ← exec (ps ++ ls) fuel body { store := Store.setAll [] (ps.map (·.1)) vs, trace := st.trace } m
+      if st1.flow = .broke then .error .breakOutside
+      else match ret, x with
+        | none, none => pure { st with trace := st1.trace }
+        | none, some _ => .error .typeError                     -- the value of a `void` function: does not compile
+        | some e, none => do let _ ← eval (ps ++ ls) st1.store e m; pure { st with trace := st1.trace }
+        | some e, some x => do
+          let v ← eval (ps ++ ls) st1.store e m
+          let s' ← assignTo te st.store x (conv rt v)
+          pure { st with store := s', trace := st1.trace }
 where
   forLoop (te : TyEnv) (fuel : Nat) (i : String) (n : Expr) (body : Stmt) (st : St) (m : Mode := .strict) : Except Err St :=
     match fuel with
